@@ -1558,6 +1558,16 @@ class _Service(object):
         return (job, priority)
 
 
+class _Published(object):
+    """a method re-published under a second name with one more modifier: both descriptors are class attributes, both wrap the
+    same function, and both are read on the same instance"""
+    def f(self, job, priority=0, verbose=False):
+        return (job, priority, verbose)
+    base = modifiers.kwoargs('verbose')(f)
+    both = modifiers.kwoargs('priority')(base)
+    del f
+
+
 def _probe_calls(sig, fn, cases):
     out = []
     for args, kwargs in cases:
@@ -1613,6 +1623,10 @@ def _preempt_scenarios():
         'pok_method_kwo': (svc_state, both_calls(lambda st: st['svc'].run), drop_held),
         'pok_method_pos': (svc_state, both_calls(lambda st: st['svc'].pos), drop_held),
         'pok_method_auto': (svc_state, both_calls(lambda st: st['svc'].auto), drop_held),
+        # two stacked descriptors over one function, both published: each thread reads both names on the shared instance
+        'pok_published_stack': (lambda: {'o': _Published()},
+                                (lambda st: (both_calls(lambda s_: s_['o'].base)(st), gc.collect() and None,
+                                             both_calls(lambda s_: s_['o'].both)(st))), None),
         # objects using as_forged: first-ever access of an emulate=True special method from two threads
         'emulated_class_getitem': (lambda: {'cls': _make_emulated_cgi()}, both_calls(lambda st: st['cls'].__class_getitem__), None),
         'emulated_new': (lambda: {'cls': _make_emulated_new()}, both(lambda st: st['cls']), None),
@@ -1626,7 +1640,7 @@ def _preempt_scenarios():
     return sc
 
 
-PREEMPT_SCENARIOS = ('pok_method_kwo', 'pok_method_pos', 'pok_method_auto', 'emulated_class_getitem', 'emulated_new', 'as_forged',
+PREEMPT_SCENARIOS = ('pok_method_kwo', 'pok_method_pos', 'pok_method_auto', 'pok_published_stack', 'emulated_class_getitem', 'emulated_new', 'as_forged',
                      'decorated_fn', 'wdecorated_fn', 'declared_emulated', 'method_decorated', 'method_pok', 'pok_fn', 'user_forged',
                      'method_fwd', 'instance_signature', 'plain_wrapper', 'method_auto', 'partial', 'declared', 'wrapped_fn',
                      'wrapped_twice')
@@ -1849,6 +1863,22 @@ def rt_truth_history(req):
                     break
             if problems:
                 break
+    # a method published twice (one more modifier the second time): what one name gives does not depend on whether the
+    # object obtained through the other name is still referenced
+    def answers(o, name):
+        m = getattr(o, name)
+        with warnings.catch_warnings():
+            warnings.simplefilter('ignore')
+            return (str(inspect.signature(m)), str(sigtools.signature(m)))
+    fresh = {n: answers(_Published(), n) for n in ('base', 'both')}
+    for first, second in (('base', 'both'), ('both', 'base')):
+        o = _Published()
+        held = getattr(o, first)          # kept, as a registered callback would be
+        got = answers(o, second)
+        if got != fresh[second]:
+            problems.append('held-sibling-changes-answer: with o.%s still referenced, o.%s is reported as %s; on a fresh instance %s' % (
+                first, second, got, fresh[second]))
+        del held
     return ('ok', tuple(problems[:2]), 'probed')
 
 
